@@ -45,6 +45,12 @@ pub struct World {
     pub tracing: bool,
     /// bytes the layer under test handed to the transport stack (poll_write returned Ok(n)), per side
     pub accepted: [u64; 2],
+    /// the last poll_write / poll_flush / poll_close the layer made on this side returned Pending
+    /// (index: side, then 0 = write, 1 = flush, 2 = close)
+    pub op_pending: [[bool; 3]; 2],
+    /// poll_flush / poll_close of the transport stack returned Ready(Ok) although bytes it had accepted
+    /// were not delivered: (accepted, delivered) at that moment
+    pub flush_incomplete: [Option<(u64, u64)>; 2],
 }
 
 pub type W = Rc<RefCell<World>>;
@@ -66,6 +72,8 @@ pub fn new_world(plan: Plan, buffering: bool, call_horizon: u64, tracing: bool) 
         trace: Vec::new(),
         tracing,
         accepted: [0, 0],
+        op_pending: [[false; 3]; 2],
+        flush_incomplete: [None, None],
     }))
 }
 
@@ -437,6 +445,20 @@ pub struct TraceT<T> {
     pub side: usize,
 }
 
+impl<T> TraceT<T> {
+    fn after_flush(&self, idx: usize, r: &Poll<io::Result<()>>) {
+        let mut w = self.w.borrow_mut();
+        let side = self.side;
+        w.op_pending[side][idx] = r.is_pending();
+        if let Poll::Ready(Ok(())) = r {
+            let (a, d) = (w.accepted[side], w.pipes[side].total);
+            if a != d && w.flush_incomplete[side].is_none() {
+                w.flush_incomplete[side] = Some((a, d));
+            }
+        }
+    }
+}
+
 fn show<T: std::fmt::Debug>(p: &Poll<io::Result<T>>) -> String {
     match p {
         Poll::Pending => "Pending".into(),
@@ -461,6 +483,7 @@ impl<T: futures_util::AsyncWrite + Unpin> futures_util::AsyncWrite for TraceT<T>
         if let Poll::Ready(Ok(n)) = &r {
             self.w.borrow_mut().accepted[side] += *n as u64;
         }
+        self.w.borrow_mut().op_pending[side][0] = r.is_pending();
         self.w.borrow_mut().t(|| format!("  {} tls->transport poll_write({}) = {}", SIDE_NAME[side], buf.len(), show(&r)));
         r
     }
@@ -468,6 +491,7 @@ impl<T: futures_util::AsyncWrite + Unpin> futures_util::AsyncWrite for TraceT<T>
     fn poll_flush(mut self: Pin<&mut Self>, cx: &mut Context<'_>) -> Poll<io::Result<()>> {
         let r = Pin::new(&mut self.inner).poll_flush(cx);
         let side = self.side;
+        self.after_flush(1, &r);
         self.w.borrow_mut().t(|| format!("  {} tls->transport poll_flush = {}", SIDE_NAME[side], show(&r)));
         r
     }
@@ -475,6 +499,7 @@ impl<T: futures_util::AsyncWrite + Unpin> futures_util::AsyncWrite for TraceT<T>
     fn poll_close(mut self: Pin<&mut Self>, cx: &mut Context<'_>) -> Poll<io::Result<()>> {
         let r = Pin::new(&mut self.inner).poll_close(cx);
         let side = self.side;
+        self.after_flush(2, &r);
         self.w.borrow_mut().t(|| format!("  {} tls->transport poll_close = {}", SIDE_NAME[side], show(&r)));
         r
     }
